@@ -1,4 +1,5 @@
 #!/bin/bash
+export VERIF_EVIDENCE_DIR=/scratch/seed_evidence; mkdir -p $VERIF_EVIDENCE_DIR
 # usage: run_seeds.sh [pattern]  : for every stored seeded change, apply to /repo, run its property's quick check, revert
 cd /verif
 for d in seeded/${1:-*}/; do
